@@ -41,9 +41,10 @@ type callRec struct {
 }
 
 type bulkWorld struct {
-	mu    sync.Mutex
-	calls []callRec
-	nth   map[string]int
+	mu     sync.Mutex
+	calls  []callRec
+	nth    map[string]int
+	cancel context.CancelFunc // cancels the request context (outcome "cancelled")
 }
 
 type fakeStore struct {
@@ -58,7 +59,8 @@ func (f *fakeStore) Bulk(ctx context.Context, in *pb.BulkRequest, _ ...grpc.Call
 	n := f.w.nth[f.host]
 	f.w.mu.Unlock()
 	h := sha256.Sum256(append(append([]byte(fmt.Sprint(in.Count, "|")), in.Docs...), in.Metas...))
-	out := []string{"ok", "error", "deadline"}[vdec.Ask(fmt.Sprintf("bulk/%s/#%d", f.host, n), 3)]
+	// ok / store error / call deadline / the client goes away: the REQUEST context is cancelled during the call
+	out := []string{"ok", "error", "deadline", "cancelled"}[vdec.Ask(fmt.Sprintf("bulk/%s/#%d", f.host, n), 4)]
 	f.w.mu.Lock()
 	f.w.calls = append(f.w.calls, callRec{Host: f.host, N: n, Payload: fmt.Sprintf("%x", h[:6]), Outcome: out})
 	f.w.mu.Unlock()
@@ -67,6 +69,9 @@ func (f *fakeStore) Bulk(ctx context.Context, in *pb.BulkRequest, _ ...grpc.Call
 		return nil, errors.New("store unavailable")
 	case "deadline":
 		return nil, context.DeadlineExceeded
+	case "cancelled":
+		f.w.cancel()
+		return nil, context.Canceled
 	}
 	return &emptypb.Empty{}, nil
 }
@@ -119,7 +124,9 @@ func runC09(r *vlib.Run, tp topo, assign map[string]int) func() {
 	var err error
 	payloadDocs, payloadMetas := []byte("docs-block-bytes"), []byte("metas-block-bytes")
 	body := func() {
-		w = &bulkWorld{nth: map[string]int{}}
+		ctx, cancel := context.WithCancel(context.Background())
+		defer cancel()
+		w = &bulkWorld{nth: map[string]int{}, cancel: cancel}
 		vrand.ResetSeq()
 		clients := map[string]pb.StoreApiClient{}
 		hot := &stores.Stores{Shards: hosts("hot", tp.HotShards, tp.HotReplicas)}
@@ -136,7 +143,7 @@ func runC09(r *vlib.Run, tp topo, assign map[string]int) func() {
 			setBreakers(tp, attempt)
 		}
 		c := bulk.NewSeqDBClient(hot, cold, breakerCfg, clients)
-		err = c.StoreDocuments(context.Background(), 2, payloadDocs, payloadMetas)
+		err = c.StoreDocuments(ctx, 2, payloadDocs, payloadMetas)
 		vtime.SleepHook = nil
 	}
 	_ = assign
@@ -315,7 +322,7 @@ func TestVerifC09(t *testing.T) {
 	r.Sample(c09Case{topo{2, 2, 1, 1}, map[string]int{"bulk/hot-s0-r1/#1": 1, "breaker/bulk_hot/s1/attempt0": 1}})
 	ev := r.Get("evaluations")
 	r.Finish(t, "fault_enumeration",
-		fmt.Sprintf("topologies hot {1..3}x{1..3} x long-term {none,1x1,1x2,2x1,2x2}; environment events: every store call (ok / error / context deadline), every shard circuit breaker before every attempt (closed / open), every shard shuffle (all permutations); all assignments for topologies with <=2 hot replicas in total and <=1 long-term replica, at most %d deviations from the default answers beyond (one less for the largest); oracle on the recorded call log: acknowledged => a hot shard all of whose replicas have a successful call with exactly the payload, and the same for the long-term tier; no replica called more than BulkMaxTries times; all-default => acknowledged. distinct_nontrivial = distinct assignments with at least one deviation", bigBound),
+		fmt.Sprintf("topologies hot {1..3}x{1..3} x long-term {none,1x1,1x2,2x1,2x2}; environment events: every store call (ok / error / call deadline / request context cancelled during the call), every shard circuit breaker before every attempt (closed / open), every shard shuffle (all permutations); all assignments for topologies with <=2 hot replicas in total and <=1 long-term replica, at most %d deviations from the default answers beyond (one less for the largest); oracle on the recorded call log: acknowledged => a hot shard all of whose replicas have a successful call with exactly the payload, and the same for the long-term tier; no replica called more than BulkMaxTries times; all-default => acknowledged. distinct_nontrivial = distinct assignments with at least one deviation", bigBound),
 		map[string]any{
 			"states":                        r.DistinctCount("outcomes"),
 			"transitions":                   ev,
